@@ -1,0 +1,78 @@
+//go:build verif
+
+package processor
+
+// Contracts for the order/limit/pagination kernels (C05) and the
+// chunk-invariance of head/tail/scroll (C06), over the interval view of an
+// IQR declared in pkg/segment/query/iqr/zz_verif_contracts.go.
+// Checked by /verif/bin/govc.  Comment-only file.
+
+// ---- scroll: skip exactly scrollFrom records of the stream, whatever the batching
+//@ spec minInt(a int, b int) int = ite(a < b, a, b)
+//@ func (*scrollProcessor).Process
+//@   mode int
+//@   props C05 C06
+//@   requires p != nil
+//@   requires implies(iqr != nil, ghost(iqr, "iqrN") >= 0 && ghost(iqr, "iqrN") <= 1152921504606846976 && ghost(iqr, "iqrStart") >= 0 && ghost(iqr, "iqrStart") <= 1152921504606846976 && p.scrollFrom <= 9223372036854775807)
+//@   ensures [eof] implies(iqr == nil, result0 == nil && result1 == io.EOF)
+//@   ensures [same-object] implies(iqr != nil && result1 == nil, result0 == iqr)
+//@   ensures [skips-prefix] implies(iqr != nil && result1 == nil, ghost(iqr, "iqrStart") == old(ghost(iqr, "iqrStart")) + minInt(int(old(p.scrollFrom)), old(ghost(iqr, "iqrN"))))
+//@   ensures [keeps-rest] implies(iqr != nil && result1 == nil, ghost(iqr, "iqrN") == old(ghost(iqr, "iqrN")) - minInt(int(old(p.scrollFrom)), old(ghost(iqr, "iqrN"))))
+//@   ensures [remaining] implies(iqr != nil && result1 == nil, int(p.scrollFrom) == int(old(p.scrollFrom)) - minInt(int(old(p.scrollFrom)), old(ghost(iqr, "iqrN"))))
+//@   safe
+//@ end
+
+// ---- head (plain limit): the union of the outputs is the first MaxRows records
+//@ func (*headProcessor).Process
+//@   mode int
+//@   props C05 C06
+//@   requires p != nil && p.options != nil && io.EOF != nil
+//@   requires implies(iqr != nil, p.options.BoolExpr == nil && p.numRecordsSent <= p.options.MaxRows && ghost(iqr, "iqrN") >= 0)
+//@   ensures [eof] implies(iqr == nil, result0 == nil && result1 == io.EOF)
+//@   ensures [same-object] implies(iqr != nil && result0 != nil, result0 == iqr)
+//@   ensures [error-or-result] implies(iqr != nil && result0 == nil, result1 != nil)
+//@   ensures [prefix-kept] implies(iqr != nil && result0 != nil, ghost(iqr, "iqrStart") == old(ghost(iqr, "iqrStart")) && uint64(ghost(iqr, "iqrN")) == ite(uint64(old(ghost(iqr, "iqrN"))) < old(p.options.MaxRows) - old(p.numRecordsSent), uint64(old(ghost(iqr, "iqrN"))), old(p.options.MaxRows) - old(p.numRecordsSent)))
+//@   ensures [count] implies(iqr != nil && result0 != nil, p.numRecordsSent == old(p.numRecordsSent) + uint64(ghost(iqr, "iqrN")) && p.numRecordsSent <= old(p.options.MaxRows))
+//@   ensures [done-iff-limit] implies(iqr != nil && result0 != nil, (result1 == io.EOF) == (p.numRecordsSent >= old(p.options.MaxRows)))
+//@   safe
+//@ end
+
+// ---- tail: finalIqr is always the last min(seen, TailRows) records of the stream
+// view invariant of the accumulated result F = p.finalIqr, with T = TailRows:
+//   F.N <= T and (F.Start == 0 or F.N == T)   i.e.  F = [max(0, seen-T), seen)
+//@ spec tailInv(p *tailProcessor) bool = implies(p.finalIqr != nil, ghost(p.finalIqr, "iqrN") >= 0 && ghost(p.finalIqr, "iqrStart") >= 0 && ghost(p.finalIqr, "iqrStart") <= 2305843009213693952 && uint64(ghost(p.finalIqr, "iqrN")) <= p.options.TailRows && (ghost(p.finalIqr, "iqrStart") == 0 || uint64(ghost(p.finalIqr, "iqrN")) == p.options.TailRows))
+//@ func (*tailProcessor).Process
+//@   mode int
+//@   props C06
+//@   requires p != nil && p.options != nil && io.EOF != nil && p.options.TailRows <= 9223372036854775807 && tailInv(p)
+//@   requires implies(iqr != nil, iqr != p.finalIqr && ghost(iqr, "iqrN") >= 0 && ghost(iqr, "iqrN") <= 1152921504606846976 && ghost(iqr, "iqrStart") >= 0 && ghost(iqr, "iqrStart") <= 1152921504606846976)
+//@   requires implies(iqr != nil && p.finalIqr != nil, ghost(iqr, "iqrStart") == ghost(p.finalIqr, "iqrStart") + ghost(p.finalIqr, "iqrN"))
+//@   requires implies(iqr != nil && p.finalIqr == nil, ghost(iqr, "iqrStart") == 0)
+//@   ensures [inv] implies(iqr != nil && result1 == nil, tailInv(p) && p.finalIqr != nil)
+//@   ensures [end-advances] implies(iqr != nil && result1 == nil, ghost(p.finalIqr, "iqrStart") + ghost(p.finalIqr, "iqrN") == old(ghost(iqr, "iqrStart")) + old(ghost(iqr, "iqrN")))
+//@   ensures [nothing-emitted-before-eof] implies(iqr != nil, result0 == nil)
+//@   ensures [emit-once] implies(iqr == nil && old(p.eof), result0 == nil && result1 == io.EOF)
+//@   safe
+//@ end
+
+// ---- sort comparator (C05): "adjacent results are never out of order ...
+// including values closer than 1e-4": the comparator must be the order of the
+// values themselves.
+//@ func compareFloat
+//@   props C05
+//@   requires !isNaN(a) && !isNaN(b)
+//@   ensures [less] (result == LESS) == (a < b)
+//@   ensures [equal] (result == EQUAL) == (a == b)
+//@   ensures [greater] (result == GREATER) == (a > b)
+//@   pure
+//@   safe
+//@ end
+
+//@ func compareString
+//@   props C05
+//@   ensures [less] (result == LESS) == (a < b)
+//@   ensures [equal] (result == EQUAL) == (a == b)
+//@   ensures [greater] (result == GREATER) == (!(a < b) && a != b)
+//@   pure
+//@   safe
+//@ end
